@@ -60,18 +60,23 @@ func checkC13(c caseC13) (sig, msg string) {
 	if err != nil {
 		return "harness", err.Error()
 	}
-	p := api.Build(&m, c.Plan)
-	seq, _, werr := api.Encode(p)
+	// the reference bytes come from a twin built the same way, so that the
+	// shared packet is untouched (never encoded, never rendered) when the
+	// goroutines start
+	twin := api.Build(&m, c.Plan)
+	seq, _, werr := api.Encode(twin)
 	if werr != nil {
 		return "harness", "sequential WriteTo failed: " + werr.Error()
 	}
+	p := api.Build(&m, c.Plan)
 	if c.Decoded {
 		q, err := mq.ReadPacket(bytes.NewReader(seq))
 		if err != nil {
 			return "", "" // not decodable: nothing to share
 		}
+		q2, _ := mq.ReadPacket(bytes.NewReader(seq))
 		p = q
-		seq, _, _ = api.Encode(p)
+		seq, _, _ = api.Encode(q2)
 	}
 	privateFrame := func(g, k int) []byte {
 		if len(c.Private) == 0 {
